@@ -142,4 +142,27 @@ CHECKS["C03"] = {
   "technique": "Coq proof (invariant induction over Kahn steps; list/set reasoning for link/merge/concat insertion; vm_compute for the bounded associativity sweep and the refutation witness) + exhaustive small-digraph and random-expression model-vs-code correspondence by vm_compute",
 }
 
+CHECKS["C13"] = {
+  "text": "Machine-checked theorems (coq/props/C13.v) about the LOGIC around numpy/scipy's generators: the Initializer.__call__ dictionary state machine (partial application never alters an existing initializer, "
+          "later calls on the original answer as before, init(**k1)(*shape, **k2) = init(*shape, **(k1 updated by k2)) for all kwargs), spectral-radius rescaling over R under an assumed homogeneity law (a positive "
+          "multiple of the draw with the requested radius when the radius is >= eps; the draw unchanged when it is null; the pre-fix epsilon formula and the open mis-estimated-null-radius finding are refuted by witnesses), "
+          "scalar / per-column input scaling entrywise, ring / line index formulas (exactly one entry per row and column), and exact degrees of the COO assembly under a `choice` oracle hypothesis. The model runs at Q "
+          "against the real initializers fed the observed same-seed draw, the library's own radius and numpy's replayed choice answers; an independent oracle checks shape, format, dtype, scipy's nnz formula, "
+          "degrees, value support, purity, positive-multiple + radius on the real matrices.",
+  "note": "Density, value support and seed determinism are facts about numpy/scipy generators: oracle-only (partial). Spectral radius is an assumed oracle law (rho_hom). Deprecated kwargs aliases are excluded from the composition "
+          "theorem. Open finding sr:null-radius-misestimated-blown-up is mirrored by C13_sr_null_misestimated_refuted. Radius equality checked at rtol 1e-6 widened by a conditioning probe. Trusted: Coq kernel + Reals axioms, "
+          "coq/model/MatGen.v, harness tools/props/c13.py.",
+  "technique": "Coq proof (ordered-dict algebra, heap frame lemmas, real algebra under a homogeneity hypothesis, index arithmetic for ring/line/degree) + Q-executed model vs real initializers + implementation oracle",
+}
+CHECKS["C20"] = {
+  "text": "Machine-checked theorems (coq/props/C20.v): to_forecasting returns X[i]=series[i], y[i]=series[i+forecast] with n-forecast rows; with a test size the four parts are contiguous, ordered and disjoint, cut at the same "
+          "place for X and y, with the test part of the requested size (an int, or the nearest integer of n*ratio by Python round), along axis 0/1 of 2-D series; one_hot_encode returns the sorted duplicate-free class list "
+          "and, for every label, the unit vector of its class index, for 1-D, (n,1) and (n,m) arrays and lists of sequences (pieces keep their lengths); logistic_map and henon_map return n rows starting at x0 whose "
+          "consecutive rows satisfy the map; narma returns n rows of an array satisfying its documented recurrence at every loop step; the pre-fix narma loop is refuted by a witness. The model runs at Q against the real "
+          "functions on every run; an oracle recomputes everything with Python fractions (also N-D series and negative axes).",
+  "note": "Hand-written model coq/model/Datasets.v; N-D (3-D or higher) series are decided by the oracle only; narma always gets a supplied u (numpy RNG not modelled); map runs are capped at n <= 10 because exact rationals "
+          "double in size each step. Trusted: Coq kernel (+ Reals axioms on the R-valued theorems), harness tools/props/c20.py.",
+  "technique": "Coq proofs by induction over lists and loop steps (lia, lra, ring via BSum), vm_compute witness for the refutation + model-vs-code correspondence at Q + fractions oracle",
+}
+
 NOT_YET = {}
